@@ -1,6 +1,7 @@
 package main
 
 import (
+	"strings"
 	"fmt"
 	"os"
 	"go/token"
@@ -293,6 +294,10 @@ func primFreeze(e *Exec, a []Value) Value {
 			continue
 		}
 		if g.Name() == "Now" {
+			continue
+		}
+		// the harness's own package-level variables (provider state in zz_verif_*.go) are not library state
+		if strings.Contains(e.P.Prog.Fset.Position(g.Pos()).Filename, "zz_verif_") {
 			continue
 		}
 		walkCell(p)
